@@ -105,8 +105,11 @@ fn dalek_pk(k: u8) -> [u8; 32] {
 }
 
 struct St {
-    /// what the operations so far mean: public key -> signature
-    model: BTreeMap<[u8; 32], [u8; 64]>,
+    /// what the operations so far mean: public key -> the signature handed to `add_signature`
+    /// (`None` after `sign`: any valid signature will do, Ed25519 signing need not be deterministic)
+    model: BTreeMap<[u8; 32], Option<[u8; 64]>>,
+    /// the signature this harness computed for the key's latest sign/add (classification only)
+    latest: BTreeMap<[u8; 32], [u8; 64]>,
     /// keys that were signed again while already present (since their last removal)
     resigned: BTreeSet<[u8; 32]>,
 }
@@ -162,8 +165,20 @@ fn check_state(
         push(fails, "signature-map-keys-differ-from-operations", format!(
             "after op {step}: map keys {:?}, operations leave {:?}",
             map_keys.iter().map(hex::encode).collect::<Vec<_>>(), model_keys.iter().map(hex::encode).collect::<Vec<_>>()));
-    } else if sigmap != st.model {
-        push(fails, "signature-map-value-differs-from-operations", format!("after op {step}"));
+    } else {
+        for (k, want) in &st.model {
+            if let Some(want) = want {
+                if &sigmap[k] != want {
+                    push(fails, "signature-map-value-differs-from-added-signature", format!("after op {step}: key {}", hex::encode(k)));
+                }
+            }
+        }
+    }
+    for (k, sg) in &sigmap {
+        let ok = VerifyingKey::from_bytes(k).map(|vk| vk.verify_strict(id0, &DSig::from_bytes(sg)).is_ok()).unwrap_or(false);
+        if !ok {
+            push(fails, "signature-map-signature-invalid", format!("after op {step}: the map's signature for {} does not verify against the transaction id", hex::encode(k)));
+        }
     }
     // witnesses in the bytes
     let items: Vec<pvkit::cborx::Node> = match parts.wits.map_get(0) {
@@ -268,7 +283,7 @@ pub fn check_case(s: &Session, case: &Case, obs: &mut Obs) -> Result<(), Fail> {
     }
 
     let mut fails: Vec<Fail> = vec![];
-    let mut st = St { model: BTreeMap::new(), resigned: BTreeSet::new() };
+    let mut st = St { model: BTreeMap::new(), latest: BTreeMap::new(), resigned: BTreeSet::new() };
     let mut cur = built;
     let mut interesting = false;
     let mut executed = 0usize;
@@ -291,7 +306,7 @@ pub fn check_case(s: &Session, case: &Case, obs: &mut Obs) -> Result<(), Fail> {
             }
             (_, true) => {
                 interesting = true;
-                if st.model.get(&pk) != new_sig.as_ref() {
+                if st.latest.get(&pk) != new_sig.as_ref() {
                     obs.class("resign:present-key-different-signature");
                 } else {
                     obs.class("resign:present-key-same-signature");
@@ -309,7 +324,7 @@ pub fn check_case(s: &Session, case: &Case, obs: &mut Obs) -> Result<(), Fail> {
         });
         match r {
             Err(p) => {
-                push(&mut fails, &p.sig, format!("op {step} ({op:?}) panicked at {}: {}", p.location, p.msg));
+                push(&mut fails, &c40::stable_panic_sig(&p.sig), format!("op {step} ({op:?}) panicked at {}: {}", p.location, p.msg));
                 obs.class("op:panic");
                 cur = prev; // the operation did not happen
                 continue;
@@ -324,12 +339,15 @@ pub fn check_case(s: &Session, case: &Case, obs: &mut Obs) -> Result<(), Fail> {
         executed += 1;
         match new_sig {
             Some(sig) => {
-                if st.model.insert(pk, sig).is_some() {
+                let want = if matches!(op, SigOp::Add { .. }) { Some(sig) } else { None };
+                if st.model.insert(pk, want).is_some() {
                     st.resigned.insert(pk);
                 }
+                st.latest.insert(pk, sig);
             }
             None => {
                 st.model.remove(&pk);
+                st.latest.remove(&pk);
                 st.resigned.remove(&pk);
             }
         }
@@ -383,7 +401,7 @@ pub fn run(s: &Session) {
         s.health(pk_bytes(k) == dalek_pk(k), &format!("pallas-crypto and ed25519-dalek disagree on public key {k}"));
     }
     s.foreach("directed", directed(), false, |c, o| check_case(s, c, o));
-    let n = s.pick(24_000, 600_000);
+    let n = s.pick(32_000, 1_000_000);
     s.forall("sign-sequences", n, case, |c, o| check_case(s, c, o));
     if !s.replaying() {
         for c in [
